@@ -695,7 +695,7 @@ impl Prop for C13 {
         }
     }
     fn runs(&self, tier: &str) -> u64 {
-        if tier == "quick" { 6_000 } else { 400_000 }
+        if tier == "quick" { 6_000 } else { 60_000 }
     }
     fn generate(&self, rng: &mut Rng, _avoid: &[String]) -> Value {
         let mode_b = rng.chance(1, 4);
